@@ -315,7 +315,7 @@ type reflStruct struct {
 func genReflect(t *rapid.T, faults bool) (v any, label string) {
 	n := 8
 	if faults {
-		n = 11
+		n = 12
 	}
 	switch rapid.IntRange(0, n).Draw(t, "reflKind") {
 	case 0:
@@ -340,6 +340,8 @@ func genReflect(t *rapid.T, faults bool) (v any, label string) {
 		return make(chan int), "chan(unencodable)"
 	case 10:
 		return map[string]float64{"x": math.NaN()}, "nanmap(unencodable)"
+	case 11:
+		return math.NaN(), "nanfloat(unencodable)"
 	default:
 		return func() {}, "func(unencodable)"
 	}
